@@ -265,6 +265,7 @@ N, B = "Nat", "Bool"
 
 FAILED_ATOMS = []
 CUR_SRC = [None]
+CUR_BODY = [None]
 
 
 def committed_def(name):
@@ -298,6 +299,16 @@ def atoms_text():
                 mc = re.search(r"\bconst\s+" + re.escape(v) + r"\s*:\s*[^=;]+=\s*([^;]+);", CUR_SRC[0] or "")
                 if mc:
                     e = R.subst(e, v, R.parse_expr(mc.group(1)))
+            # … or a `let` of the function the expression comes from
+            for _ in range(4):
+                extra = sorted(R.free_vars(e) - set(names))
+                if not extra or not CUR_BODY[0]:
+                    break
+                for v in extra:
+                    try:
+                        e = R.subst(e, v, R.let_expr(CUR_BODY[0], v))
+                    except Exception:               # noqa
+                        pass
             fv = R.free_vars(e)
             if not fv <= set(names):
                 raise R.Unsupported(f"{name}: free variables {sorted(fv - set(names))} are not parameters")
@@ -311,8 +322,10 @@ def atoms_text():
 
     def region(*a, **k):
         CUR_SRC[0] = a[0] if a else None
+        CUR_BODY[0] = None
         try:
-            return R.fn_region(*a, **k)
+            CUR_BODY[0] = R.fn_region(*a, **k)
+            return CUR_BODY[0]
         except Exception:                           # noqa
             return None
 
